@@ -1,6 +1,9 @@
 package main
 
 import (
+	"os"
+	"path/filepath"
+
 	"bytes"
 	"crypto"
 	"crypto/ecdsa"
@@ -8,6 +11,7 @@ import (
 	"crypto/rsa"
 	stdx509 "crypto/x509"
 	"fmt"
+	"github.com/tjfoc/gmsm/sm2"
 
 	"github.com/tjfoc/gmsm/pkcs12"
 	gx509 "github.com/tjfoc/gmsm/x509"
@@ -193,4 +197,58 @@ func runC17P12Std(c *Ctx) {
 			rep.Eval(cls)
 		}
 	}
+}
+
+// The file-based helpers SM2P12Encrypt / SM2P12Decrypt: a bundle written to a path and read back from it is the bundle
+// that was written — also when the path already held another (longer or shorter) bundle.
+func runC17P12Files(c *Ctx) {
+	rep := c.Rep
+	r := c.Rng("p12files")
+	dir := filepath.Join(c.Out, "p12files")
+	os.MkdirAll(dir, 0o755)
+	path := filepath.Join(dir, "bundle.p12")
+	type item struct {
+		k    *sm2.PrivateKey
+		cert *gx509.Certificate
+		pw   string
+	}
+	var items []item
+	// certificates of clearly different sizes, written to the same path one after the other: big, small, big, small
+	for i, extra := range []int{40, 0, 25, 0, 0, 60} {
+		k := newSM2Key(r)
+		var dns []string
+		for j := 0; j < extra; j++ {
+			dns = append(dns, fmt.Sprintf("name-%d-%d.p12files.example", i, j))
+		}
+		cert, _, err := issueSM2(certSpec{cn: fmt.Sprintf("p12 file %d", i), serial: int64(7000 + i), dns: dns}, &k.PublicKey, nil, k, r)
+		if err != nil {
+			continue
+		}
+		items = append(items, item{k, cert, []string{"pw", "", "pässwörd"}[i%3]})
+	}
+	for i, it := range items {
+		w := map[string]interface{}{"step": i, "certificate_len": len(it.cert.Raw)}
+		var err error
+		if pi := mon.Guard(func() { err = pkcs12.SM2P12Encrypt(it.cert, it.pw, it.k, path) }); pi != nil || err != nil {
+			rep.Violation("C17/pkcs12.SM2P12Encrypt/fails", fmt.Sprint(pi, err), w)
+			continue
+		}
+		var gc *gx509.Certificate
+		var gk *sm2.PrivateKey
+		if pi := mon.Guard(func() { gc, gk, err = pkcs12.SM2P12Decrypt(path, it.pw) }); pi != nil || err != nil {
+			rep.Violation("C17/pkcs12.SM2P12Decrypt/fails-on-the-file-just-written", fmt.Sprintf("write #%d to the same path: %v %v", i, pi, err), w)
+		} else if gc == nil || gk == nil || !bytes.Equal(gc.Raw, it.cert.Raw) || gk.D.Cmp(it.k.D) != 0 {
+			rep.Violation("C17/pkcs12.SM2P12Decrypt/returns-another-key-or-certificate", fmt.Sprintf("write #%d", i), w)
+		}
+		if pi := mon.Guard(func() { _, _, err = pkcs12.SM2P12Decrypt(path, it.pw+"x") }); pi != nil {
+			rep.Violation("C17/pkcs12.SM2P12Decrypt/panic/"+pi.Func, pi.Value, w)
+		} else if err == nil {
+			rep.Violation("C17/pkcs12.SM2P12Decrypt/accepts-wrong-password", "", w)
+		}
+		rep.Eval(fmt.Sprintf("pkcs12/file-helpers/write=%d", i))
+	}
+	if pi := mon.Guard(func() { pkcs12.SM2P12Decrypt(filepath.Join(dir, "does-not-exist.p12"), "pw") }); pi != nil {
+		rep.Violation("C17/pkcs12.SM2P12Decrypt/panic/"+pi.Func, "missing file: "+pi.Value, nil)
+	}
+	os.RemoveAll(dir)
 }
